@@ -103,3 +103,12 @@ Definition is_named_type (t : ty) : bool := match t with TNamed _ => true | _ =>
 
 Fixpoint ty_size (t : ty) : nat :=
   match t with TNamed _ => 1 | TList c => S (ty_size c) | TNonNull c => S (ty_size c) end.
+
+(* the types the GraphQL grammar can express: no non-null directly under non-null ("T!!") *)
+Fixpoint ty_proper (t : ty) : bool :=
+  match t with
+  | TNamed _ => true
+  | TList i => ty_proper i
+  | TNonNull (TNonNull _) => false
+  | TNonNull i => ty_proper i
+  end.
